@@ -404,194 +404,27 @@ func (r *renderState) postInline(source []byte, inline *Inline) bool {
 // described in https://github.github.com/gfm/#disallowed-raw-html-extension-.
 //
 // It cannot use a conventional HTML parser,
-// since raw HTML in Markdown may be incomplete or start in the middle of a tag.
+// since raw HTML in Markdown may be incomplete or start in the middle of a tag:
+// a tag, a comment or a quoted attribute value of the document the output becomes part of
+// can begin in one raw HTML node and end in another.
+// No '<' can therefore be assumed to be inert because of what precedes it in the same node,
+// and every '<' is examined on its own.
 func (r *renderState) filterRaw(rawHTML []byte) {
-	const (
-		copyState = iota
-		commentState
-		piState
-		declState
-	)
-	state := copyState
 	copyStart := 0
-	for i := 0; i < len(rawHTML); {
-		switch state {
-		case copyState:
-			if rawHTML[i] == '<' {
-				switch {
-				case hasBytePrefix(rawHTML[i:], htmlCommentPrefix):
-					i += len(htmlCommentPrefix)
-					switch {
-					case hasBytePrefix(rawHTML[i:], ">"):
-						// "<!-->" is a complete comment to an HTML parser.
-						i += len(">")
-					case hasBytePrefix(rawHTML[i:], "->"):
-						// So is "<!--->".
-						i += len("->")
-					default:
-						state = commentState
-					}
-				case hasBytePrefix(rawHTML[i:], "<!"),
-					hasBytePrefix(rawHTML[i:], processingInstructionPrefix),
-					hasBytePrefix(rawHTML[i:], "</") && !(i+2 < len(rawHTML) && isASCIILetter(rawHTML[i+2])):
-					// Declarations, CDATA sections (outside of foreign content),
-					// processing instructions, "</" not followed by a name,
-					// and anything else that starts with "<!"
-					// end at the first '>' for an HTML parser.
-					state = declState
-					i += len("<!")
-				default:
-					tagNameStart := i + 1
-					isEndTag := tagNameStart < len(rawHTML) && rawHTML[tagNameStart] == '/'
-					// The name of an end tag starts after its slash:
-					// scanning from the slash would take the name for an attribute name.
-					scanStart := tagNameStart
-					if isEndTag {
-						scanStart++
-					}
-					tagEnd := scanStart + htmlTagEnd(rawHTML[scanStart:])
-					tagNameEnd := tagNameStart + htmlTagNameEnd(rawHTML[tagNameStart:tagEnd])
-					tagName := maybeLower(rawHTML[tagNameStart:tagNameEnd], &r.lowerBuf)
-					escaped := r.FilterTag(tagName)
-					if escaped {
-						r.dst = append(r.dst, rawHTML[copyStart:i]...)
-						r.dst = append(r.dst, "&lt;"...)
-						copyStart = tagNameStart
-					}
-					if escaped || (tagNameEnd == tagNameStart && !isEndTag) {
-						// An escaped '<' no longer opens a tag
-						// and a '<' that is followed by neither a tag name nor a slash never did:
-						// whatever comes next is examined on its own.
-						i = tagNameStart
-					} else {
-						i = tagEnd
-					}
-				}
-			} else {
-				i++
-			}
-		case commentState:
-			switch {
-			case hasBytePrefix(rawHTML[i:], htmlCommentSuffix):
-				state = copyState
-				i += len(htmlCommentSuffix)
-			case hasBytePrefix(rawHTML[i:], "--!>"):
-				// HTML parsers also end a comment here.
-				state = copyState
-				i += len("--!>")
-			default:
-				i++
-			}
-		case piState:
-			if hasBytePrefix(rawHTML[i:], processingInstructionSuffix) {
-				state = copyState
-				i += len(processingInstructionSuffix)
-			} else {
-				i++
-			}
-		case declState:
-			if rawHTML[i] == '>' {
-				state = copyState
-			}
-			i++
-		default:
-			panic("unreachable")
+	for i := 0; i < len(rawHTML); i++ {
+		if rawHTML[i] != '<' {
+			continue
+		}
+		tagNameStart := i + 1
+		tagNameEnd := tagNameStart + htmlTagNameEnd(rawHTML[tagNameStart:])
+		tagName := maybeLower(rawHTML[tagNameStart:tagNameEnd], &r.lowerBuf)
+		if r.FilterTag(tagName) {
+			r.dst = append(r.dst, rawHTML[copyStart:i]...)
+			r.dst = append(r.dst, "&lt;"...)
+			copyStart = tagNameStart
 		}
 	}
-
 	r.dst = append(r.dst, rawHTML[copyStart:]...)
-}
-
-// htmlTagEnd returns the index just past the '>' that ends a tag for an HTML parser,
-// given the bytes following the tag's '<',
-// or len(b) if the tag is not closed.
-// Unlike the first '>', this skips over quoted attribute values.
-func htmlTagEnd(b []byte) int {
-	const (
-		tagNameState = iota
-		beforeAttrNameState
-		attrNameState
-		afterAttrNameState
-		beforeAttrValueState
-		doubleQuotedState
-		singleQuotedState
-		unquotedState
-	)
-	isSpace := func(c byte) bool { return c == ' ' || c == '\t' || c == '\n' || c == '\f' }
-	state := tagNameState
-	for i, c := range b {
-		switch state {
-		case tagNameState:
-			switch {
-			case c == '>':
-				return i + 1
-			case isSpace(c) || c == '/':
-				state = beforeAttrNameState
-			}
-		case beforeAttrNameState:
-			switch {
-			case c == '>':
-				return i + 1
-			case isSpace(c) || c == '/':
-				// Stay.
-			default:
-				state = attrNameState
-			}
-		case attrNameState:
-			switch {
-			case c == '>':
-				return i + 1
-			case isSpace(c):
-				state = afterAttrNameState
-			case c == '/':
-				state = beforeAttrNameState
-			case c == '=':
-				state = beforeAttrValueState
-			}
-		case afterAttrNameState:
-			switch {
-			case c == '>':
-				return i + 1
-			case isSpace(c):
-				// Stay.
-			case c == '/':
-				state = beforeAttrNameState
-			case c == '=':
-				state = beforeAttrValueState
-			default:
-				state = attrNameState
-			}
-		case beforeAttrValueState:
-			switch {
-			case c == '>':
-				return i + 1
-			case isSpace(c):
-				// Stay.
-			case c == '"':
-				state = doubleQuotedState
-			case c == '\'':
-				state = singleQuotedState
-			default:
-				state = unquotedState
-			}
-		case doubleQuotedState:
-			if c == '"' {
-				state = beforeAttrNameState
-			}
-		case singleQuotedState:
-			if c == '\'' {
-				state = beforeAttrNameState
-			}
-		case unquotedState:
-			switch {
-			case c == '>':
-				return i + 1
-			case isSpace(c):
-				state = beforeAttrNameState
-			}
-		}
-	}
-	return len(b)
 }
 
 func appendAltText(dst []byte, source []byte, parent *Inline) []byte {
